@@ -4,6 +4,8 @@ import asyncio
 import collections
 import json
 
+from urllib.parse import urlparse
+
 import aiohttp
 
 
@@ -16,6 +18,13 @@ class FakeWS:
         self.inbox = collections.deque()
         self.wake = None
         self.t_open = env.loop.time()
+        self.t_closed = None  # virtual time at which the connection went down (any cause)
+
+    def mark_closed(self):
+        if not self.closed:
+            self.closed = True
+        if self.t_closed is None:
+            self.t_closed = self.env.loop.time()
 
     def __aiter__(self):
         return self
@@ -29,10 +38,10 @@ class FakeWS:
                 if kind == "binary":
                     return aiohttp.WSMessage(aiohttp.WSMsgType.BINARY, data, None)
                 if kind == "close":
-                    self.closed = True
+                    self.mark_closed()
                     raise StopAsyncIteration
                 if kind == "drop":
-                    self.closed = True
+                    self.mark_closed()
                     raise ConnectionResetError("connection dropped")
             if self.closed:
                 raise StopAsyncIteration
@@ -53,7 +62,7 @@ class FakeWS:
         self.sent.append((self.env.loop.time(), json.loads(s)))
 
     async def close(self):
-        self.closed = True
+        self.mark_closed()
         if self.wake and not self.wake.done():
             self.wake.set_result(None)
 
@@ -76,7 +85,7 @@ class _WSCtx:
 
     async def __aexit__(self, *a):
         if self.ws is not None:
-            self.ws.closed = True
+            self.ws.mark_closed()
 
 
 class _Resp:
@@ -91,8 +100,29 @@ class _Resp:
         return self.payload
 
 
+def _form_fields(kw):
+    """name -> value of what the client sends as form data / query parameters (aiohttp.FormData or plain dicts)."""
+    out = {}
+    for src in (kw.get("params"), kw.get("data")):
+        if src is None:
+            continue
+        fields = getattr(src, "_fields", None)
+        if fields is not None:
+            for f in fields:
+                try:
+                    out[f[0].get("name")] = f[2]
+                except Exception:  # noqa - an unexpected layout is simply not decoded
+                    pass
+        elif isinstance(src, dict):
+            out.update(src)
+    return out
+
+
 class _HTTPCtx:
-    """Scripted HTTP answer: Binance listen key (create / keep alive) or Bitstamp websocket token."""
+    """Scripted HTTP answer: Binance listen key (create / keep alive; spot, cross margin and isolated margin endpoints) or
+    Bitstamp websocket token. Every listen-key call is recorded in env.key_events as
+    (virtual time, 'create' | 'keepalive' | 'failed-POST' | 'failed-PUT', listen key, endpoint path, symbol);
+    env.key_owner maps each issued key to the (endpoint path, symbol) that issued it."""
 
     def __init__(self, env, method, url, kw):
         self.env, self.method, self.url, self.kw = env, method, url, kw
@@ -104,26 +134,30 @@ class _HTTPCtx:
             await asyncio.sleep(delay)
         else:
             await asyncio.sleep(0)
+        path = urlparse(self.url).path
+        is_key = "userDataStream" in path
+        if is_key:
+            fields = _form_fields(self.kw)
+            symbol, key = fields.get("symbol"), fields.get("listenKey")
         if env.fail_next_http:
             env.fail_next_http = False
-            if "userDataStream" in self.url:
-                env.key_events.append((env.loop.time(), "failed-" + self.method, None))
+            if is_key:
+                env.key_events.append((env.loop.time(), "failed-" + self.method, key, path, symbol))
             raise aiohttp.ClientConnectionError("http failure")
-        if "userDataStream" in self.url:
+        if is_key:
             if self.method == "POST":
-                env.nkeys += 1
-                key = f"key{env.nkeys}"
-                env.key_events.append((env.loop.time(), "create", key))
+                # as documented by Binance: while the account has an active listen key, that key is returned (and its
+                # validity extended); a new key is issued only when there is none or it has expired
+                active = [k for k, own in env.key_owner.items() if own == (path, symbol) and k not in env.expired_at]
+                if active:
+                    key = active[-1]
+                else:
+                    env.nkeys += 1
+                    key = f"key{env.nkeys}"
+                    env.key_owner[key] = (path, symbol)
+                env.key_events.append((env.loop.time(), "create", key, path, symbol))
                 return _Resp({"listenKey": key})
-            data = self.kw.get("data")
-            key = None
-            if data is not None:
-                fields = getattr(data, "_fields", None)
-                if fields:
-                    for f in fields:
-                        if f[0].get("name") == "listenKey":
-                            key = f[2]
-            env.key_events.append((env.loop.time(), "keepalive", key))
+            env.key_events.append((env.loop.time(), "keepalive", key, path, symbol))
             return _Resp({})
         if "websockets_token" in self.url:
             env.tokens += 1
@@ -166,6 +200,8 @@ class Env:
         self.nkeys = 0
         self.tokens = 0
         self.key_events = []
+        self.key_owner = {}   # listen key -> (endpoint path, symbol) that issued it
+        self.expired_at = {}  # listen key -> virtual time at which the server declared it expired
 
     def live(self):
         return self.conns[-1] if self.conns and not self.conns[-1].closed else None
